@@ -122,12 +122,12 @@ func LoadVerifier(repo, verifDir string) (*Verifier, error) {
 		assumptionsUsed: map[string]bool{}, trustedUsed: map[string]bool{}, globalAccess: map[string]map[string]map[string]bool{},
 		holeRes: map[string]map[string]string{}, tblTerms: map[string]tblRef{}, globals: map[*ssa.Global]*Obj{}, contractSource: map[string]string{}, extracted: map[string]*ExtractedTable{}}
 	cfg := &packages.Config{
-		Mode:       packages.LoadAllSyntax,
-		Dir:        repo,
+		Mode: packages.LoadAllSyntax,
+		Dir:  repo,
 		// no build tags: the packages are loaded in the configuration the tests and the users build (the contract
 		// files, which are behind the tag verif, are comment-only and read as text); AuxCheck reports every file
 		// that this configuration leaves out
-		Env:        append(os.Environ(), "GOFLAGS=-mod=mod", "GOPROXY=off"),
+		Env: append(os.Environ(), "GOFLAGS=-mod=mod", "GOPROXY=off"),
 	}
 	pk, err := packages.Load(cfg, "./...")
 	if err != nil {
